@@ -36,6 +36,7 @@ inductive ArgMap where
   | builder (path : Builder.Path) (ty : Ty) (name : String)
   | array (for_ : Builder.Path) (forTy : Ty) (elem : ArgMap) (valueAs : String)
   | map (for_ : Builder.Path) (forTy : Ty) (elem : ArgMap) (valueAs : String)
+  | choice (path : Builder.Path) (ty : Ty) (alts : List (List Guard × String))   -- `BuilderDisjunction`: one guarded converter per candidate builder
   | unsup (why : String)
   deriving Inhabited
 
@@ -146,6 +147,13 @@ def buildersForType (bs : Builders) : Nat → Ty → List Builder
     | .ref p n _ => buildersForRef bs p n
     | _ => []
 
+/-- `Builders.HaveConstantConstructorAssignment`: every builder pins at least one constant in its constructor -/
+def haveConstantConstructorAssignment (bs : List Builder) : Bool :=
+  bs.all fun b => b.constructor.assignments.any fun a => (constOf a.value).isSome
+
+def constantAssignments (b : Builder) : List Assignment :=
+  b.constructor.assignments.filter fun a => (constOf a.value).isSome
+
 /-- `argumentForType` -/
 def argumentForType (c : Ctx) : Nat → String → Builder.Path → Ty → ArgMap
   | 0, _, _, _ => .unsup "fuel"
@@ -161,7 +169,12 @@ def argumentForType (c : Ctx) : Nat → String → Builder.Path → Ty → ArgMa
       match buildersForType c.bs 8 t with
       | [] => .direct valuePath t
       | [b] => .builder valuePath t b.name
-      | _ => .unsup "several builders for the type"
+      | b :: more =>
+        -- several builders for the type: a choice guarded by the constants their constructors pin,
+        -- else the first builder
+        if haveConstantConstructorAssignment (b :: more) then
+          .choice valuePath t ((b :: more).map fun pb => (guardForAssignments valuePath (constantAssignments pb), pb.name))
+        else .builder valuePath t b.name
 
 /-- `isAssignmentFromDisjunctionStruct` -/
 def fromDisjunctionStruct (c : Ctx) (a : Assignment) : Bool :=
@@ -410,6 +423,13 @@ def runArg (c : Ctx) : Nat → VEnv → ArgMap → BRes Arg
         match findBuilderByName c.bs name with
         | none => .unsup ("no builder " ++ name)
         | some b => (runConverter c fuel b v).map fun r => .builder name r.1 r.2
+    | .choice p t alts =>
+      (evalPath env p).bind fun v0 =>
+      (if t.getMeta.nullable then deref t v0 else .ok v0).bind fun v =>
+      (runChoices c fuel env v alts none).bind fun r =>
+        match r with
+        | some a => .ok a
+        | none => .unsup "no builder choice matches the value (the converter prints an empty argument)"
     | .array p _ elem valueAs =>
       (evalPath env p).bind fun v =>
         match v with
@@ -422,6 +442,17 @@ def runArg (c : Ctx) : Nat → VEnv → ArgMap → BRes Arg
         | .nil => .ok (.dict [])
         | .gomap kvs => (runArgDict c fuel env elem valueAs kvs).map .dict
         | _ => .unsup "ill-typed value (map expected)"
+/-- `var arg string; if <guards1> { arg = B1Converter(v) }; if <guards2> { arg = B2Converter(v) } …`: the last
+    candidate whose guards hold wins -/
+def runChoices (c : Ctx) : Nat → VEnv → GoVal → List (List Guard × String) → Option Arg → BRes (Option Arg)
+  | 0, _, _, _, _ => .fuel
+  | _ + 1, _, _, [], acc => .ok acc
+  | fuel + 1, env, v, (guards, name) :: rest, acc =>
+    (evalGuards env guards).bind fun ok =>
+      if !ok then runChoices c fuel env v rest acc else
+      match findBuilderByName c.bs name with
+      | none => .unsup ("no builder " ++ name)
+      | some b => (runConverter c fuel b v).bind fun r => runChoices c fuel env v rest (some (.builder name r.1 r.2))
 def runArgList (c : Ctx) : Nat → VEnv → ArgMap → String → List GoVal → BRes (List Arg)
   | 0, _, _, _, _ => .fuel
   | _ + 1, _, _, _, [] => .ok []
